@@ -25,6 +25,9 @@ pub struct NodeCfg {
     pub boot_uuid: Option<[u8; 16]>,
     /// 0 = the driver always receives into the start of its RX buffer, 1 = at a rotating offset
     pub rx_mode: u8,
+    /// how the driver uses the library on a delivery: 0 = decode_packet then process_packet,
+    /// 1 = process_packet then decode_packet, 2 = process_packet only
+    pub call_mode: u8,
 }
 
 pub struct Cfg {
@@ -44,6 +47,7 @@ pub struct Cfg {
     /// per-mille chance of a near-limit body in A2/A3
     pub big_pm: u32,
     pub forge_iid_pm: u32,
+    pub soak: bool,
 }
 
 const LEVEL_PM: [u32; 4] = [0, 10, 100, 400];
@@ -114,6 +118,7 @@ pub fn draw(ch: &mut Chooser, prof: &Profile) -> Cfg {
             None
         };
         let rx_mode = ch.choose(2) as u8;
+        let call_mode = ch.choose(3) as u8;
         if i >= n_nodes {
             continue;
         }
@@ -130,6 +135,7 @@ pub fn draw(ch: &mut Chooser, prof: &Profile) -> Cfg {
             autopoll,
             boot_uuid,
             rx_mode,
+            call_mode,
         });
     }
     ch.mark();
@@ -172,7 +178,15 @@ pub fn draw(ch: &mut Chooser, prof: &Profile) -> Cfg {
     }
     let stop_w = [4u32, 12, 2, 1][ch.choose(4) as usize];
     let snoop = ch.chance(prof.snoop_pc, 100);
-    let budget = [250u32, 80, 250, 600][ch.choose(4) as usize];
+    let mut budget = [250u32, 80, 250, 600][ch.choose(4) as usize];
+    // one run in 256 is a soak run: a long history on few contexts (state that only
+    // accumulates — counters, caches — needs hundreds of deliveries to matter)
+    let soak = ch.choose(256) == 255;
+    let mut stop_w = stop_w;
+    if soak {
+        budget = 4000;
+        stop_w = 0;
+    }
     let big_pm = prof.big_bodies * 60;
     Cfg {
         nodes,
@@ -188,5 +202,6 @@ pub fn draw(ch: &mut Chooser, prof: &Profile) -> Cfg {
         budget,
         big_pm,
         forge_iid_pm: prof.forge_iid_pm,
+        soak,
     }
 }
